@@ -62,6 +62,9 @@ Lemma flat_map_length_sum {A B} (f : A -> list B) (l : list A) :
   length (flat_map f l) = fold_right (fun x acc => length (f x) + acc)%nat O l.
 Proof. induction l as [|x l IH]; cbn [flat_map fold_right length]; [reflexivity|]. rewrite app_length, IH. reflexivity. Qed.
 
+Lemma existsb_map {A B} (f : A -> B) (p : B -> bool) (l : list A) : existsb p (map f l) = existsb (fun x => p (f x)) l.
+Proof. induction l as [|x l IH]; cbn [map existsb]; [reflexivity|]. rewrite IH. reflexivity. Qed.
+
 (* ================================================================== three-valued logic sanity *)
 Lemma is_tt_iff t : is_tt t = true <-> t = TT.
 Proof. destruct t; cbn; split; intro H; congruence. Qed.
@@ -588,13 +591,13 @@ Proof.
   apply negb_false_iff in K. apply andb_true_iff in K. exact K.
 Qed.
 
-Lemma lkeys_ok st s : fast_path st = false -> Known_C12_key_columns_not_first st = false ->
-  existsb is_some (map (src_get (m_scols st) s) (lkeys st)) = existsb is_some (skeys st s).
-Proof. intros FP K. destruct (keys_first st FP K) as [L _]. unfold skeys. apply existsb_same_set. exact L. Qed.
+Lemma lkeys_ok st j : fast_path st = false -> Known_C12_key_columns_not_first st = false ->
+  side_left st j = existsb is_some (skeys st (js j)).
+Proof. intros FP K. destruct (keys_first st FP K) as [L _]. unfold side_left, skeys. apply existsb_same_set. exact L. Qed.
 
-Lemma rkeys_ok st t : fast_path st = false -> Known_C12_key_columns_not_first st = false ->
-  existsb is_some (map (fun c => nth c t None) (rkeys st)) = existsb is_some (tkeys st t).
-Proof. intros FP K. destruct (keys_first st FP K) as [_ R]. unfold tkeys. apply existsb_same_set. exact R. Qed.
+Lemma rkeys_ok st j : fast_path st = false -> Known_C12_key_columns_not_first st = false ->
+  side_right st j = existsb is_some (tkeys st (jt j)).
+Proof. intros FP K. destruct (keys_first st FP K) as [_ R]. unfold side_right, tkeys. apply existsb_same_set. exact R. Qed.
 
 Lemma act_both st it s :
   m_on st <> [] ->
@@ -611,7 +614,7 @@ Proof.
     unfold fast_action, src_keys, cond_m, wm_act. cbn [js jt jid mkB is_some]. fold (skeys st s). rewrite Hs, Hns.
     destruct (m_wm st) as [|c| |]; try congruence; destruct (m_ins st); try reflexivity;
       destruct (eval_b (widen st s ++ snd it) c); reflexivity.
-  - unfold merger_action. cbn [js jt mkB]. rewrite (lkeys_ok st s FP K5), (rkeys_ok st (snd it) FP K5).
+  - unfold merger_action. rewrite (lkeys_ok st _ FP K5), (rkeys_ok st _ FP K5). unfold mkB. cbn [js jt].
     destruct (sql_on st s (snd it)) eqn:SQ.
     + destruct (sql_on_some st s (snd it) SQ) as [Hs Ht].
       rewrite (skeys_exists st s Hon Hs), (tkeys_exists st (snd it) Hon Ht). cbn [andb].
@@ -637,7 +640,7 @@ Proof.
     + rewrite (Hk eq_refl). reflexivity.
     + destruct (forallb is_some (skeys st s)), (m_wm st); try congruence; try reflexivity;
         destruct (cond_m st _); reflexivity.
-  - unfold merger_action. cbn [js jt mkS]. rewrite (lkeys_ok st s FP K5), (rkeys_ok st (nulls (m_ncols st)) FP K5).
+  - unfold merger_action. rewrite (lkeys_ok st _ FP K5), (rkeys_ok st _ FP K5). unfold mkS. cbn [js jt].
     rewrite tkeys_nulls. rewrite !andb_false_r. cbn [negb]. rewrite andb_true_r.
     destruct (m_ins st) eqn:I.
     + rewrite (skeys_exists st s Hon (Hk eq_refl)). reflexivity.
@@ -651,7 +654,7 @@ Lemma act_tgt st it :
   row_action st (mkT st it) = if nsdel st (snd it) then ADelete else ANothing.
 Proof.
   intros FP K5 Hk. unfold row_action. rewrite FP.
-  unfold merger_action. cbn [js jt mkT]. rewrite (lkeys_ok st (nulls (length (m_scols st))) FP K5), (rkeys_ok st (snd it) FP K5).
+  unfold merger_action. rewrite (lkeys_ok st _ FP K5), (rkeys_ok st _ FP K5). unfold mkT. cbn [js jt].
   rewrite skeys_nulls. cbn [andb negb]. unfold nsdel, cond_d. cbn [jt mkT].
   destruct (existsb is_some (tkeys st (snd it))) eqn:R.
   - destruct (m_ns st); reflexivity.
@@ -687,9 +690,6 @@ Qed.
 
 Lemma negb_existsb_nil {A} (p : A -> bool) (l : list A) : negb (existsb p l) = is_nil (filter p l).
 Proof. induction l as [|x l IH]; cbn [existsb filter]; [reflexivity|]. destruct (p x); cbn; [reflexivity|exact IH]. Qed.
-
-Lemma existsb_map {A B} (f : A -> B) (p : B -> bool) (l : list A) : existsb p (map f l) = existsb (fun x => p (f x)) l.
-Proof. induction l as [|x l IH]; cbn [map existsb]; [reflexivity|]. rewrite IH. reflexivity. Qed.
 
 Lemma existsb_ext_in {A} (p q : A -> bool) (l : list A) : (forall x, In x l -> p x = q x) -> existsb p l = existsb q l.
 Proof.
